@@ -269,6 +269,16 @@ def render(pkg: Pkg, src_prefix: str = "src") -> dict:
     files = {}
     for p in sorted(pkg.packages()):
         lines = [render_reexport(p, r) for r in pkg.inits.get(p, [])]
+        if getattr(pkg, "combine_imports", False):
+            # one statement per source: "from .m import a as b, c, d" (the order of the names is kept)
+            merged: dict = {}
+            for ln in lines:
+                head, _, names_ = ln.partition(" import ")
+                if ln.startswith("from ") and names_ != "*":
+                    merged.setdefault(head, []).append(names_)
+                else:
+                    merged.setdefault(ln, [])
+            lines = [f"{head} import {', '.join(ns)}" if ns else head for head, ns in merged.items()]
         files[f"{src_prefix}/{'/'.join(p)}/__init__.py"] = "".join(ln + "\n" for ln in lines)
     for m in pkg.modules:
         files[f"{src_prefix}/{m.path}"] = render_mod(m)
@@ -563,6 +573,7 @@ def random_pkg(rng, cfg: GenCfg) -> Pkg:
         _add_private_name_clashes(rng, pkg)
     if cfg.foreign and cfg.local_foreign:
         pkg.extra_files.update(LOCAL_FOREIGN_FILES)
+    pkg.combine_imports = rng.random() < 0.5
     return pkg
 
 
